@@ -68,7 +68,7 @@ theorem loadPinned_witness :
 /-! ### the general theorem applies -/
 
 theorem chain4_isChain : IsChain 9 chain4 :=
-  ⟨by decide, by decide, by decide⟩
+  ⟨by decide, by decide, by decide, by decide⟩
 
 example : ∃ s', Store.load acl (fresh 4) (fetchN chain4 2) 2 = .ok s' ∧ values s'.log = [c3, c4] :=
   load_single_head_chain_exact chain4_isChain acl (by decide) (by decide) (fresh 4) rfl rfl rfl
